@@ -6,6 +6,8 @@ from ..core import AnalysisError, u, walk_local, enclosing_stmt
 from ..lib import (construct, std_facts, def_of, facts_at, calls_of_node,
                    returns_of, in_subtree, default_of, kwarg)
 from ..resolve import store_accesses
+from ..cfg import describe_path
+from .common import allowed_stores
 
 
 def passes(call, pos, name, value='skip_unknown'):
@@ -18,6 +20,9 @@ def passes(call, pos, name, value='skip_unknown'):
 def run(ctx):
   prog = ctx.prog
   ctx.assume('T10')
+  allowed_stores(ctx, 'C14.inplace', {'config.parse_config': {'_IMPORTS'}, 'config.parse_config_file': {'_LOCATION_PREFIXES', '_FILE_READERS'},
+                                     'config.parse_config_files_and_bindings': set()},
+                 'an include must act exactly like the included text at that point; state remembered across includes (e.g. "already included") changes that')
   pf = ctx.func('config.parse_config_file')
   con = construct(pf)
   g, facts = std_facts(prog, pf)
@@ -65,6 +70,22 @@ def run(ctx):
   ok = bool(loop) and bool(inc) and all(in_subtree(c, loop[0]) for c in inc)
   ctx.check(ok, 'C14.inplace', construct(pc), 'an include is parsed inside the statement loop, before the next statement of the including file is read',
             'includes are no longer parsed at their position in the statement loop', pc.loc(), instance='in-loop')
+  # the include is unconditional: every pass through the include branch parses the file (or raises)
+  gI, factsI = std_facts(prog, pc)
+  inc_nodes = [n for n in gI.live_nodes() if any(prog.resolve_call(pc, c) == pf.qual for c in calls_of_node(n))]
+  branch = [n for n in gI.live_nodes() if n.kind == 'test' and 'IncludeStatement' in u(n.ast)]
+  loop_nodes = [n for n in gI.live_nodes() if n.kind == 'for' and loop and n.ast is loop[0]]
+  skip_path = None
+  if branch and inc_nodes and loop_nodes:
+    start = [b for b, k in gI.succ[branch[0].id] if k == 'T'][0]
+    if start not in [n.id for n in inc_nodes]:
+      from ..cfg import witness as _w
+      skip_path = _w(gI, start, [loop_nodes[0].id], avoid=[n.id for n in inc_nodes])
+  ctx.check(bool(branch) and bool(inc_nodes) and skip_path is None, 'C14.inplace', construct(pc),
+            'every include statement is parsed (no path through the include branch skips the file)',
+            'an include statement can be skipped without parsing the file: the second inclusion of a file (diamond include, re-including '
+            'defaults after an override) would not be re-applied in place', pc.loc(), instance='unconditional',
+            path=describe_path(gI, skip_path) if skip_path else None)
   ctx.check(bool(inc) and all(passes(c, 1, 'skip_unknown') and u(c.args[0]) == 'statement.filename' for c in inc), 'C14.entry', construct(pc),
             'the include forwards skip_unknown', 'the include no longer forwards skip_unknown', pc.loc(), instance='forward:include')
   g2, facts2 = std_facts(prog, pc)
